@@ -76,6 +76,14 @@ def check(a):
             if bad_fields or abs(v - t) > TOL:
                 return True, '%s(%r) = %r: negative field / wrong sign flag or %.3e arc-seconds from the angle the HP value denotes' % (fn, xs, r, float(abs(v - t) * 3600))
         return False, '%s(%r) ok' % (fn, xs)
+    if kind.startswith('dec') and 'm' not in a:
+        # no concrete double came with the witness: stress set (just below whole degrees / minutes, digit boundaries, tiny and large magnitudes)
+        for x in (0.9999999999999999, 359.99999999999994, 12.582438888888887, 0.016666666666666666, 0.9833333333333333, 1e-9, 2.7777777777e-13,
+                  89.99999999999999, 179.5959999999999, 0.5, 45.123456789012, 511.99999999999994):
+            bad, msg = _check_dec(A, fn, -x if neg else x)
+            if bad:
+                return bad, msg
+        return False, '%s: stress set ok' % fn
     if kind.startswith('dec'):
         m = int(a['m'])
         x = math.ldexp(m, -52)          # mantissa in [2^52, 2^53): scale by the chunk's exponent stored with the witness
